@@ -11,6 +11,12 @@ pub static mut NOW_NS: u64 = 0;
 /// harness check that a forwarder passes its timeout argument on unmodified.
 pub static mut LAST_TIMEOUT_NS: u64 = 0;
 pub static mut TIMEOUTS_CREATED: usize = 0;
+pub fn timeouts_created() -> usize {
+    unsafe { TIMEOUTS_CREATED }
+}
+pub fn last_timeout_ns() -> u64 {
+    unsafe { LAST_TIMEOUT_NS }
+}
 pub fn now_ns() -> u64 {
     unsafe { NOW_NS }
 }
